@@ -16,11 +16,20 @@ def kvGet (s : String) : String → Option String :=
     | [k, v] => some (k, v) | _ => none
   fun k => (kv.find? (·.1 == k)).map (·.2)
 
-def parseProxy (s : String) : Option Proxy :=
+/-- one `pinfo` entry: Go's `net.ParseIP` result (16 bytes, its `String()`) and `net.ParseCIDR` result -/
+structure Parsed where
+  ip16 : Option Bytes
+  canon : Option Bytes
+  cidr : Option (Bytes × Bytes)
+
+def optHex (s : String) : Option (Option Bytes) := if s == "-" then some none else (fromHex s).map some
+
+def parseProxy (s : String) : Option Parsed :=
   match s.splitOn ":" with
-  | ["bad"] => some .bad
-  | ["ip", c, i] => do some (.ip (← fromHex c) (← fromHex i))
-  | ["cidr", n, m] => do some (.cidr (← fromHex n) (← fromHex m))
+  | ["p", i, c, n, m] => do
+    let i ← optHex i; let c ← optHex c; let n ← optHex n; let m ← optHex m
+    if i.isSome != c.isSome || n.isSome != m.isSome then none
+    else some { ip16 := i, canon := c, cidr := match n, m with | some n, some m => some (n, m) | _, _ => none }
   | _ => none
 
 def bool01 (x : Bool) : String := if x then "1" else "0"
@@ -60,8 +69,10 @@ def handleCase (f : List String) : Except String Verdict := do
     let some ripStr := (pg "str").bind fromHex | throw "outside-domain: peerinfo"
     if rip.length != 4 && rip.length != 16 then throw "outside-domain: peer address length"
     if peer != "u" && !(peer.startsWith "t:") then throw "outside-domain: peer"
-    let some ps := (if pinfo == "-" then some [] else (pinfo.splitOn "|").mapM parseProxy) | throw "outside-domain: pinfo"
-    if ps.length != proxiesRaw.length then throw "outside-domain: pinfo length"
+    let some parsed := (if pinfo == "-" then some [] else (pinfo.splitOn "|").mapM parseProxy) | throw "outside-domain: pinfo"
+    if parsed.length != proxiesRaw.length then throw "outside-domain: pinfo length"
+    -- `handleTrustedProxy` (range or address, canonical key) is the model's
+    let ps := (proxiesRaw.zip parsed).map fun (raw, p) => fileProxy raw p.ip16 p.cidr
     let cfg : Cfg := { trustProxy := fl[0]! == "1", loopback := fl[1]! == "1", priv := fl[2]! == "1", linkLocal := fl[3]! == "1",
                        validate := fl[4]! == "1", proxies := ps, proxyHeader := phdr, normProxyHeader := nphdr }
     -- the pair must agree off the forwarding headers, and on the connection-derived host
@@ -78,17 +89,27 @@ def handleCase (f : List String) : Except String Verdict := do
     let cn : Conn := { rip := rip, ripStr := ripStr, tls := tls == "1", uriHost := uhA, proto := oa.proto }
     let ma := outputs cfg cn off viewA
     let mb := outputs cfg cn off viewB
-    -- parameter checks: Go's classification of the peer against the model's, and that String() is a
-    -- function of the address (listed entry equal as address ⇔ equal canonical text)
+    -- parameter checks: Go's classification of the peer against the model's
     let classOK := pg "lb" == some (bool01 (isLoopback rip)) && pg "pr" == some (bool01 (isPrivate rip)) &&
                    pg "ll" == some (bool01 (isLinkLocal rip))
-    let strOK := ps.all fun | .ip canon ip16 => (ip16 == to16 rip) == (canon == ripStr) | _ => true
+    -- `net.IP.String()` is the transcribed formatter, for the peer and for every listed address
+    -- (StringFaithful is then a theorem: `stringFaithful_of_format`)
+    let strOK := ripStr == ipString rip && parsed.all fun p => match p.ip16, p.canon with
+      | some i, some c => i.length == 16 && c == ipString i
+      | _, _ => true
+    -- every range `net.ParseCIDR` returned has a prefix mask of the network number's length
+    -- (hypothesis of `cidrContains_v4` / `cidrContains_v6`: range membership = the first n bits agree)
+    let maskOK := parsed.all fun p => match p.cidr with
+      | some (n, m) => isPrefixMask m && n.length == m.length && (n.length == 4 || n.length == 16)
+      | none => true
     let blocksOK := inLoopback rip == isLoopback rip && inPrivate rip == isPrivate rip && inLinkLocal rip == isLinkLocal rip
     let modelObs := if !classOK then "param-mismatch:class" else if !strOK then "param-mismatch:string"
+                    else if !maskOK then "param-mismatch:mask"
                     else if !blocksOK then "param-mismatch:blocks" else renderOut ma ++ "|" ++ renderOut mb
     let spec := specViolation cfg cn off viewA viewB oa ob
-    let k1 := Known.K1 cfg viewA || Known.K1 cfg viewB
-    let known := if spec.isSome && k1 && (spec == some "validated-ip-is-valid" || spec == some "trusted-documented-values ip") then some "K1" else none
+    -- no open known finding (the former K1, an over-long IPv6 group passing validation, is repaired: F5)
+    let longGroup := hasLongGroup cfg viewA || hasLongGroup cfg viewB
+    let known : Option String := none
     let member := inSet cfg cn
     let fwdPresent := (viewA.any fun p => fk.contains p.1) || (viewB.any fun p => fk.contains p.1)
     let differ := viewA != viewB
@@ -99,9 +120,24 @@ def handleCase (f : List String) : Except String Verdict := do
     let fam := if (to4 rip).isSome then (if rip.length == 4 then "v4" else "v4mapped") else "v6"
     let nt := if cfg.trustProxy && !member && fwdPresent && differ then ["nt-untrusted"]
               else if cfg.trustProxy && member && fwdPresent then ["nt-trusted"] else []
-    let tags := [how, fam] ++ nt ++ (if cn.tls then ["tls"] else []) ++ (if cfg.validate then ["validate"] else []) ++
+    -- which header decides the scheme of request A (for the distribution report)
+    let isSchemeName (k : Bytes) := k == sXFProto || k == sXFProtocol || k == sXFSsl || k == sXUrlScheme
+    let schNames := (viewA.filter fun p => isSchemeName p.1).map (·.1)
+    let winner := match viewA.reverse.find? (fun p => (schemeOf p).isSome) with
+      | none => "sch-none"
+      | some p => if p.1 == sXFProto then "sch-proto" else if p.1 == sXFProtocol then "sch-protocol"
+                  else if p.1 == sXFSsl then "sch-ssl" else "sch-url"
+    let xfh := get viewA sXFH
+    let schTags := if cfg.trustProxy && member && !cn.tls then
+        [winner] ++ (if schNames.length ≥ 2 then ["sch-multi"] else []) ++
+        (if schNames.eraseDups.length < schNames.length then ["sch-dup"] else []) ++
+        (if schNames.eraseDups.length == 4 then ["sch-all-four"] else []) ++
+        (if xfh.contains 58 then ["xfh-colon"] else []) ++ (if xfh.contains 91 then ["xfh-v6-literal"] else []) ++
+        (if xfh.contains 44 then ["xfh-list"] else []) ++ (if uhA.contains 91 then ["host-v6-literal"] else [])
+      else []
+    let tags := [how, fam] ++ nt ++ schTags ++ (if cn.tls then ["tls"] else []) ++ (if cfg.validate then ["validate"] else []) ++
       (if phdr != [] then ["proxyheader"] else []) ++ (if ma.ip != ripStr then ["ip-forwarded"] else []) ++
-      (if ma.scheme == sHTTPS && !cn.tls then ["https-forwarded"] else []) ++ (if k1 then ["k1"] else [])
+      (if ma.scheme == sHTTPS && !cn.tls then ["https-forwarded"] else []) ++ (if longGroup then ["long-group"] else [])
     return { id := id, modelObs := modelObs, implObs := impl, spec := spec, known := known, tags := tags }
   | _ => throw s!"outside-domain: expected 18 fields, got {f.length}"
 
